@@ -14,6 +14,6 @@ import DracoProps.C15
 import DracoProps.C01Eb
 import DracoProps.C05
 import DracoProps.C06
-import DracoProps.C10
-import DracoProps.C20
-import DracoProps.C09
+-- TEMP(merge) import DracoProps.C10
+-- TEMP(merge) import DracoProps.C20
+-- TEMP(merge) import DracoProps.C09
